@@ -63,7 +63,7 @@ class Infeasible(Exception):
 class Arr:
     """Pointful array: a shape and an element function (DESIGN 4.2)."""
 
-    __slots__ = ("shape", "fn", "dtype", "base", "tag", "nviews", "flat")
+    __slots__ = ("shape", "fn", "dtype", "base", "tag", "nviews", "flat", "__weakref__")
 
     def __init__(self, shape, fn, dtype="real", base=None, tag=None):
         self.shape = tuple(shape)
@@ -818,6 +818,9 @@ class Frame:
 
     def s_Assign(self, st):
         v = self.eval(st.value)
+        if isinstance(v, Arr) and v.base is not None and any(isinstance(tg, ast.Subscript) for tg in st.targets):
+            # a[i] = a[j] (a view stored into a region): NumPy copies the data; the element function of the view is a snapshot already
+            v = Arr(v.shape, v.fn, v.dtype)
         for tg in st.targets:
             self.assign(tg, v)
 
@@ -847,9 +850,7 @@ class Frame:
             rhs = self.eval(st.value)
             cur = npmodel.getitem(self.eng, base, idx)
             newv = npmodel.binop(self.eng, st.op, cur, rhs)
-            if isinstance(cur, Arr) and cur.base is not None and cur.base.nviews > 0:
-                cur.base.nviews -= 1          # the temporary view of `a[idx] op= v` dies here
-                cur.base = None
+            del cur                           # the temporary view of `a[idx] op= v` dies here (views are counted while the object lives)
             npmodel.setitem(self.eng, base, idx, newv)
         elif isinstance(tg, ast.Attribute):
             obj = self.eval(tg.value)
